@@ -357,10 +357,28 @@ fi
 exec /bin/sleep 40
 '''
 
+FORKER_PY = r'''# a multi-threaded process that starts a long-lived helper from a thread that is not its main thread
+import os, subprocess, sys, threading, time
+log = sys.argv[1]
+with open(log, 'a') as f:
+    f.write('node %d python\n' % os.getpid())
+
+
+def helper():
+    p = subprocess.Popen(['/bin/sleep', '40'], stdout=subprocess.DEVNULL, stderr=subprocess.DEVNULL)
+    with open(log, 'a') as f:
+        f.write('node %d forked-by-thread\n' % p.pid)
+    p.wait()
+
+
+threading.Thread(target=helper).start()
+time.sleep(40)
+'''
+
 HARNESS_SH = r'''#!/bin/sh
 # benchmark harness: <dir> <benchmark>; behaviour from <dir>/<benchmark>.plan: "<mode> <depth> <fanout>"
 DIR="$1"; B="$2"
-read MODE D F < "$DIR/$B.plan"
+read MODE D F PY < "$DIR/$B.plan"
 LOG="$DIR/$B.log"
 if [ "$MODE" = "hang2" ]; then
   # hang in the second invocation only (the signal then arrives at the second process start)
@@ -379,6 +397,9 @@ if [ "$MODE" = "hang" ]; then
     /bin/sh "$DIR/node.sh" "$LOG" $((D-1)) "$F" $(( (i + 1) % 2 )) > /dev/null 2>&1 &
     i=$((i+1))
   done
+  if [ -n "$PY" ] && [ "$PY" != "0" ]; then
+    "$PY" "$DIR/forker.py" "$LOG" > /dev/null 2>&1 &
+  fi
   echo "spawned" >> "$LOG"
   /bin/sleep 40
   echo "$B: iterations=2 runtime: 222ms"
@@ -527,15 +548,17 @@ def wait_until(pred, timeout, step=0.02):
     return pred()
 
 
-def write_real_scenario(wd, benchmarks, limit, ignore_timeouts, invocations=1):
+def write_real_scenario(wd, benchmarks, limit, ignore_timeouts, invocations=1, forker=False):
     """benchmarks: list of (name, mode, depth, fanout)"""
     with open(os.path.join(wd, 'node.sh'), 'w') as f:
         f.write(NODE_SH)
     with open(os.path.join(wd, 'harness.sh'), 'w') as f:
         f.write(HARNESS_SH)
+    with open(os.path.join(wd, 'forker.py'), 'w') as f:
+        f.write(FORKER_PY)
     for (b, mode, d, fo) in benchmarks:
         with open(os.path.join(wd, b + '.plan'), 'w') as f:
-            f.write('%s %d %d\n' % (mode, d, fo))
+            f.write('%s %d %d %s\n' % (mode, d, fo, sys.executable if (forker and mode != 'normal') else '0'))
     suite = {'gauge_adapter': 'RebenchLog', 'command': '%s/harness.sh %s %%(benchmark)s' % (wd, wd),
              'benchmarks': [b for (b, _m, _d, _f) in benchmarks], 'max_invocation_time': limit,
              'ignore_timeouts': bool(ignore_timeouts)}
